@@ -3,6 +3,7 @@ package main
 import (
 	"encoding/base64"
 	"fmt"
+	"math/big"
 	"net/http"
 	"strings"
 	"sync"
@@ -88,10 +89,28 @@ func suiteV07(c *vctx) {
 			fmt.Sprintf("alice:t:%d", now), fmt.Sprintf("alice: true:%d", now), fmt.Sprintf("alice:true"), "alice", "",
 			fmt.Sprintf("alice:true:%d:extra", now), fmt.Sprintf("alice:true:+%d", now), fmt.Sprintf("alice:true:%d ", now),
 			fmt.Sprintf("alice:true:0x10"), fmt.Sprintf(":true:%d", now), fmt.Sprintf("bob:smith:true:%d", now),
-			fmt.Sprintf("alice:false:%d", now-1), fmt.Sprintf("root:true:-5"), fmt.Sprintf("root:true:99999999999999999999")} {
+			fmt.Sprintf("alice:false:%d", now-1), fmt.Sprintf("root:true:-5"), fmt.Sprintf("root:true:99999999999999999999"),
+			// issue times at the ends of the integer range (age arithmetic must not wrap)
+			"root:true:-9223372036854775808", "root:true:-9223372036854775807", fmt.Sprintf("root:true:%d", int64(-1<<63)+now-1000),
+			fmt.Sprintf("root:true:%d", int64(-1<<63)+now+lt), "root:true:9223372036854775807", "root:true:9223372036854775806",
+			"root:true:-4611686018427387904", "root:true:4611686018427387904", "root:true:0", "root:true:-1", "root:true:-0",
+			"root:true:2147483647", "root:true:2147483648", "root:true:4294967296", fmt.Sprintf("root:true:%d", now+(1<<32)), fmt.Sprintf("root:true:%d", now-(1<<32)),
+			"root:true:-9223372036854775809", "root:true:9223372036854775808"} {
 			is, text := forge(f, plain)
 			issued = append(issued, is)
 			texts = append(texts, text)
+			// the property, directly, on the authentic token with this plaintext: accepted only if the
+			// issue time is a decimal integer with 0 <= now - t <= lifetime (arbitrary precision here)
+			st, _, _, _ := f.Check(text)
+			parts := strings.Split(plain, ":")
+			fresh := false
+			if len(parts) == 3 {
+				if t, ok := new(big.Int).SetString(parts[2], 10); ok {
+					age := new(big.Int).Sub(big.NewInt(time.Now().Unix()), t)
+					fresh = age.Sign() >= 0 && age.Cmp(big.NewInt(lt+2)) <= 0
+				}
+			}
+			c.emit("law.C07.expired_or_future_token_rejected "+vxs(plain), vtf(st != 200 || fresh))
 		}
 		itok := vIssuedTok(issued)
 		present := func(kind, text string) {
